@@ -70,6 +70,8 @@ class FnExec:
         self.dropped = set()
         self.heap_owned = set()
         self.omp_tid = None
+        self.exit_tag = ""
+        self.return_states = []
 
     def clauses(self, lst):
         """(tag, text) pairs of a contract clause list, tagged (functional) ones dropped in safety mode"""
